@@ -7,3 +7,38 @@ def fill(add):
         "Every write entry point x sync/async side x 3 flavour builds x 5 algorithms x size table (0..3 MiB incl. mmap threshold -1/0/+1) x chunkings (all compositions for n<=6, structured family above) x declared size x hostile keys is executed against the real library; the returned integrity is compared with hashlib/xxhash-rust, the content file and every read entry point with the exact bytes.",
         "Trusted: hashlib (OpenSSL) digests, the xxhash-rust crate for xxh3, tmpfs semantics. Sizes and chunkings are the stated finite tables, not all inputs.",
         "DESIGN.md 4/C02", "seqx")
+    add("C01", "fault_enumeration",
+        "exhaustive fault enumeration on the on-disk state (damage states x checked retrieval entry points)",
+        "Every damage state of the content file (all single-bit flips and truncation lengths of small files, boundary offsets of large ones, extension, empty, another entry's bytes, symlink substitution, directory) is put on disk and every checked retrieval entry point of all three flavour builds is executed on it; a success must deliver exactly the stored bytes.",
+        "Trusted: SHA-256 comparison of delivered bytes; reflink cannot succeed on the file systems available, so only its failures are exercised.",
+        "DESIGN.md 4/C01", "seqx")
+    add("C05", "model_checking",
+        "explicit-state breadth-first model checking of the implementation's on-disk states against a dictionary model",
+        "All histories up to the depth bound over writes (two record lengths, sync/async, session and one-shot), removals and foreign live/tombstone records on two sibling keys are executed on the real library from the empty cache and from a reference-written seed (tombstone, torn fragment, invalid-UTF-8 line); every distinct state is observed through every lookup entry point and compared with the model.",
+        "Trusted: the dictionary model, the state canonicalisation (tombstone and wall-clock times abstracted; argued in DESIGN 3.3). Bound: depth 3 quick / 4 (6 on one key) thorough.",
+        "DESIGN.md 4/C05", "seqx")
+    add("C09", "model_checking",
+        "explicit-state breadth-first model checking of the implementation's on-disk states against a dictionary model",
+        "All histories up to the depth bound over writes, remove, remove_hash, remove_fully and clear (sync and async) on three keys sharing index directories and two values sharing a content directory; every key and address is observed after every transition.",
+        "Trusted: dictionary model; removing absent things may answer Ok or IoError. Bound: depth 4 quick / 5 thorough.",
+        "DESIGN.md 4/C09", "seqx")
+    add("C10", "model_checking",
+        "explicit-state breadth-first model checking of the implementation's on-disk states; listing oracle in every state",
+        "In every state reachable within the depth bound (writes with non-monotone timestamps, removals, re-writes on three keys; seeds with tombstones first/middle/last) the items of list_sync are compared with the model and with lookups: no duplicate, no phantom, no missing key, every field equal.",
+        "Trusted: dictionary model. F7: an index-less cache lists as one NotFound error (pinned by the repository's own test).",
+        "DESIGN.md 4/C10", "seqx")
+    add("C16", "model_checking",
+        "explicit-state BFS over re-write histories plus bounded-exhaustive digest enumeration with independent digest implementations",
+        "Returned addresses are compared with hashlib and coreutils (xxh3: xxhash-rust) for every algorithm x size x entry point x flavour; BFS over histories re-writing equal bytes through different keys, entry points, chunkings, flavours and algorithms (with damage actions) checks that content-v2 holds exactly one byte-identical file per (algorithm, bytes) and that each copy is verified with its own algorithm.",
+        "Trusted: hashlib/coreutils digests; xxh3 only against the same crate ssri uses.",
+        "DESIGN.md 4/C16", "seqx")
+    add("C17", "model_checking",
+        "two-way trace conformance between the implementation and an independent format codec over exhaustively enumerated histories",
+        "Direction 1: every BFS state and every hostile-key/metadata write of the library is checked byte for byte against the documented grammar and decoded by the reference decoder. Direction 2: every history up to the bound, every hostile key and metadata value is written by the reference encoder (two serialiser variants) and read back through all lookup entry points of the three flavours.",
+        "Trusted: vlib/ref.py as the statement of the format. Byte identity between writers is not demanded.",
+        "DESIGN.md 4/C17", "seqx")
+    add("C18", "fault_enumeration",
+        "exhaustive fault enumeration on the on-disk state x extraction entry points x destination states",
+        "Every extraction entry point (checked/unchecked, by key/address, three flavours) on pristine, damaged (one representative per damage class) and missing content, with absent/existing/unreachable destinations and present/absent keys; success must leave exactly the stored bytes, failed verification must not leave the unverified bytes.",
+        "Trusted: byte comparison at the destination. reflink success paths unreachable on tmpfs/ext4.",
+        "DESIGN.md 4/C18", "seqx")
